@@ -6,3 +6,4 @@ import BV.C15.LemmasDec2
 import BV.C15.LemmasScript
 import BV.C15.LemmasRec
 import BV.C15.LemmasFix
+import BV.C15.LemmasV0
